@@ -11,6 +11,7 @@ package props
 // from the stored account fields), and after a successful delegation by V: balance(V) >= unvested.
 
 import (
+	"encoding/base64"
 	"encoding/json"
 	"fmt"
 	"math/big"
@@ -19,6 +20,7 @@ import (
 	"time"
 
 	sdkmath "cosmossdk.io/math"
+	"github.com/cosmos/cosmos-sdk/crypto/keys/ed25519"
 	sdk "github.com/cosmos/cosmos-sdk/types"
 	"github.com/cosmos/cosmos-sdk/x/authz"
 	banktypes "github.com/cosmos/cosmos-sdk/x/bank/types"
@@ -31,10 +33,13 @@ import (
 	"verif/pabi"
 	"verif/txb"
 
+	stakingpc "github.com/haqq-network/haqq/precompiles/staking"
 	lvtypes "github.com/haqq-network/haqq/x/liquidvesting/types"
 	ucdaotypes "github.com/haqq-network/haqq/x/ucdao/types"
 	vestingtypes "github.com/haqq-network/haqq/x/vesting/types"
 )
+
+var c08ValKey = ed25519.GenPrivKeyFromSecret([]byte("c08-new-validator"))
 
 type C08Op struct {
 	K    string `json:"k"`    // send | multisend | eth-send | highfee | gov-deposit | dao-fund | delegate | eth-delegate | exec-delegate | undelegate | liquidate | merge | clawback | receive
@@ -105,7 +110,7 @@ func genC08(t *rapid.T) C08Case {
 		}
 		no := rapid.IntRange(1, 5).Draw(t, "nops")
 		for j := 0; j < no; j++ {
-			op := C08Op{K: rapid.SampledFrom([]string{"send", "send", "multisend", "eth-send", "eth-send", "highfee", "gov-deposit", "dao-fund", "delegate", "delegate", "eth-delegate", "exec-delegate", "undelegate", "liquidate", "merge", "merge-stake", "clawback", "receive"}).Draw(t, "k")}
+			op := C08Op{K: rapid.SampledFrom([]string{"send", "send", "multisend", "eth-send", "eth-send", "highfee", "gov-deposit", "dao-fund", "delegate", "delegate", "eth-delegate", "exec-delegate", "create-validator", "eth-create-validator", "undelegate", "liquidate", "merge", "merge-stake", "clawback", "receive"}).Draw(t, "k")}
 			op.Mode = rapid.SampledFrom([]string{"spendable", "spendable", "spendable", "delegatable", "abs"}).Draw(t, "mode")
 			op.Off = rapid.SampledFrom([]int64{0, 0, 1, -1, 2, -2, 1000000}).Draw(t, "off")
 			op.Abs = rapid.SampledFrom([]string{"1", "1000", "500000", "1000000", "9000000"}).Draw(t, "abs")
@@ -115,7 +120,7 @@ func genC08(t *rapid.T) C08Case {
 		if rapid.IntRange(0, 2).Draw(t, "redelegate-scenario") == 0 {
 			// delegate part of what is delegatable, then try to delegate one unit more than what remains, over each path
 			first := rapid.SampledFrom([]string{"delegate", "exec-delegate", "eth-delegate"}).Draw(t, "sc-first")
-			second := rapid.SampledFrom([]string{"delegate", "exec-delegate", "eth-delegate", "eth-delegate"}).Draw(t, "sc-second")
+			second := rapid.SampledFrom([]string{"delegate", "exec-delegate", "eth-delegate", "eth-delegate", "create-validator", "eth-create-validator"}).Draw(t, "sc-second")
 			b.Ops = append(b.Ops, C08Op{K: first, Mode: "abs", Abs: rapid.SampledFrom([]string{"1000", "500000"}).Draw(t, "sc-amt"), Val: 0},
 				C08Op{K: second, Mode: "delegatable", Off: rapid.SampledFrom([]int64{1, 1, 2, 1000000000000000000}).Draw(t, "sc-off"), Val: 1})
 		}
@@ -199,10 +204,11 @@ func runC08(st *ev.Stats, c C08Case) string {
 	n.EndBlockCommit()
 
 	vals := func() []stakingtypes.Validator { return r.bondedVals() }
-	nonBankPath, boundary, lockedBetween := false, false, false
+	nonBankPath, boundary, lockedBetween, slashed := false, false, false, false
 	for bi_, b := range c.Blocks {
 		in := chain.BlockIn{Dt: time.Duration(b.Dt) * time.Second}
 		if b.DoubleSign > 0 {
+			slashed = true
 			in.Evidence = r.evidenceFor(b.DoubleSign - 1)
 		}
 		n.BeginBlock(in)
@@ -239,7 +245,7 @@ func runC08(st *ev.Stats, c C08Case) string {
 			gas := uint64(400000)
 			fee := new(big.Int).Mul(price, new(big.Int).SetUint64(gas))
 			// "spend exactly what is spendable": leave room for the fee in the boundary modes
-			if op.Mode == "spendable" && op.K != "eth-send" && op.K != "eth-delegate" && op.K != "receive" && op.K != "merge" && op.K != "merge-stake" && op.K != "clawback" {
+			if op.Mode == "spendable" && op.K != "eth-send" && op.K != "eth-delegate" && op.K != "eth-create-validator" && op.K != "receive" && op.K != "merge" && op.K != "merge-stake" && op.K != "clawback" {
 				amt = new(big.Int).Sub(amt, fee)
 				if amt.Sign() <= 0 {
 					amt = big.NewInt(1)
@@ -310,6 +316,30 @@ func runC08(st *ev.Stats, c C08Case) string {
 				if vm, _ := decodeEthResponse(res.Data); vm != "" {
 					code = 999
 				}
+			case "create-validator", "eth-create-validator":
+				// the account becomes a validator operator: the self-delegation is a delegation like any other
+				if _, found := app.StakingKeeper.GetValidator(n.Ctx(), sdk.ValAddress(V.Addr)); found {
+					continue
+				}
+				isDelegation = true
+				if op.K == "create-validator" {
+					m, err := stakingtypes.NewMsgCreateValidator(sdk.ValAddress(V.Addr), c08ValKey.PubKey(), coin(amt)[0], stakingtypes.Description{Moniker: "c08"},
+						stakingtypes.NewCommissionRates(sdk.NewDecWithPrec(10, 2), sdk.NewDecWithPrec(20, 2), sdk.NewDecWithPrec(1, 2)), sdk.OneInt())
+					must(err)
+					code, log = cosmosAs(V, 900000, price, m)
+				} else {
+					one := func(s string) *big.Int { return sdkmath.LegacyMustNewDecFromStr(s).BigInt() }
+					_, seq := txb.AccInfo(n.Ctx(), app, V.Addr)
+					to := pabi.StakingAddr
+					res := n.DeliverTx(txb.EthTx(V, txb.Eth{Type: 0, ChainID: big.NewInt(11235), Nonce: seq, To: &to, Value: big.NewInt(0), Gas: 1200000, GasPrice: price,
+						Data: pabi.Pack("staking", "createValidator", stakingpc.Description{Moniker: "c08"},
+							stakingpc.Commission{Rate: one("0.10"), MaxRate: one("0.20"), MaxChangeRate: one("0.01")},
+							big.NewInt(1), V.Hex, sdk.ValAddress(V.Addr).String(), base64.StdEncoding.EncodeToString(c08ValKey.PubKey().Bytes()), amt)}))
+					code, log = res.Code, res.Log
+					if vm, _ := decodeEthResponse(res.Data); vm != "" {
+						code = 999
+					}
+				}
 			case "undelegate":
 				dels := app.StakingKeeper.GetDelegatorDelegations(n.Ctx(), V.Addr, 10)
 				if len(dels) == 0 {
@@ -369,6 +399,25 @@ func runC08(st *ev.Stats, c C08Case) string {
 			}
 			bal2 := n.Balance(V.Addr)
 			locked2, unvested2 := c08Locked(va2, now)
+			if !slashed {
+				// the delegated amount the account is credited with (it reduces "locked") is backed by coins that really are
+				// bonded or unbonding; only a slash can legitimately make the stake smaller than the tracked amount
+				staked := new(big.Int)
+				for _, d := range app.StakingKeeper.GetDelegatorDelegations(n.Ctx(), V.Addr, 100) {
+					if v, ok := app.StakingKeeper.GetValidator(n.Ctx(), d.GetValidatorAddr()); ok {
+						staked.Add(staked, v.TokensFromShares(d.Shares).Ceil().TruncateInt().BigInt())
+					}
+				}
+				for _, u := range app.StakingKeeper.GetUnbondingDelegations(n.Ctx(), V.Addr, 100) {
+					for _, e := range u.Entries {
+						staked.Add(staked, e.Balance.BigInt())
+					}
+				}
+				tracked := new(big.Int).Add(va2.DelegatedFree.AmountOf(chain.Denom).BigInt(), va2.DelegatedVesting.AmountOf(chain.Denom).BigInt())
+				if tracked.Cmp(staked) > 0 {
+					return fail("tracked-delegation-exceeds-stake:"+op.K, fmt.Sprintf("block %d op %d %+v accepted: the account tracks %s as delegated but only %s is bonded or unbonding (no slash happened)", bi_+1, oi, op, tracked, staked))
+				}
+			}
 			desc := fmt.Sprintf("block %d op %d %+v (amount %s) accepted: balance %s -> %s, locked(ref) %s -> %s, unvested %s, delegated free %s", bi_+1, oi, op, amt, bal, bal2, locked, locked2, unvested2, va2.DelegatedFree)
 			if isDelegation {
 				if bal2.Cmp(unvested2) < 0 {
